@@ -359,8 +359,20 @@ func (c *xsyncMapOf[K, V]) DeleteExpired() {
 	c.items.Range(func(k K, v itemOf[V]) bool {
 		i := v
 		if i.expiredWithNow(now) {
-			c.items.Delete(k)
-			if ec != nil {
+			// Re-check under the bucket lock: remove only what is still
+			// expired at this moment, and report what was really removed.
+			removed := false
+			c.items.Compute(k, func(value itemOf[V], loaded bool) (itemOf[V], bool) {
+				if loaded {
+					if !value.expiredWithNow(now) {
+						// k has a new value
+						return value, false
+					}
+					i, removed = value, true
+				}
+				return value, true
+			})
+			if removed && ec != nil {
 				evictedItems = append(evictedItems, kvOf[K, V]{k, i.v})
 			}
 		}
